@@ -846,49 +846,35 @@ impl DcpsDomainParticipant {
                         vec![]
                     };
 
-                    let is_any_name_matched = discovered_reader_data
-                        .dds_subscription_data
-                        .partition
-                        .name
-                        .iter()
-                        .any(|n| publisher.qos.partition.name.contains(n));
+                    // An empty partition list is the default partition, i.e. the list [""]
+                    let default_partition = [String::new()];
+                    let reader_partition: &[String] =
+                        if discovered_reader_data.dds_subscription_data.partition.name.is_empty() {
+                            &default_partition
+                        } else {
+                            &discovered_reader_data.dds_subscription_data.partition.name
+                        };
+                    let writer_partition: &[String] = if publisher.qos.partition.name.is_empty() {
+                        &default_partition
+                    } else {
+                        &publisher.qos.partition.name
+                    };
+                    let is_any_name_matched =
+                        reader_partition.iter().any(|n| writer_partition.contains(n));
 
-                    let is_any_received_regex_matched_with_partition_qos = discovered_reader_data
-                        .dds_subscription_data
-                        .partition
-                        .name
-                        .iter()
-                        .filter_map(|n| Regex::new(&fnmatch_to_regex(n)).ok())
-                        .any(|regex| {
-                            publisher
-                                .qos
-                                .partition
-                                .name
-                                .iter()
-                                .any(|n| regex.is_match(n))
-                        });
-
-                    let is_any_local_regex_matched_with_received_partition_qos = publisher
-                        .qos
-                        .partition
-                        .name
+                    let is_any_received_regex_matched_with_partition_qos = reader_partition
                         .iter()
                         .filter_map(|n| Regex::new(&fnmatch_to_regex(n)).ok())
-                        .any(|regex| {
-                            discovered_reader_data
-                                .dds_subscription_data
-                                .partition
-                                .name
-                                .iter()
-                                .any(|n| regex.is_match(n))
-                        });
+                        .any(|regex| writer_partition.iter().any(|n| regex.is_match(n)));
 
-                    let is_partition_matched =
-                        discovered_reader_data.dds_subscription_data.partition
-                            == publisher.qos.partition
-                            || is_any_name_matched
-                            || is_any_received_regex_matched_with_partition_qos
-                            || is_any_local_regex_matched_with_received_partition_qos;
+                    let is_any_local_regex_matched_with_received_partition_qos = writer_partition
+                        .iter()
+                        .filter_map(|n| Regex::new(&fnmatch_to_regex(n)).ok())
+                        .any(|regex| reader_partition.iter().any(|n| regex.is_match(n)));
+
+                    let is_partition_matched = is_any_name_matched
+                        || is_any_received_regex_matched_with_partition_qos
+                        || is_any_local_regex_matched_with_received_partition_qos;
                     if is_partition_matched {
                         let publisher_qos = publisher.qos.clone();
 
@@ -1413,47 +1399,35 @@ impl DcpsDomainParticipant {
                         vec![]
                     };
 
-                    let is_any_name_matched = discovered_writer_data
-                        .dds_publication_data
-                        .partition
-                        .name
-                        .iter()
-                        .any(|n| subscriber_qos.partition.name.contains(n));
+                    // An empty partition list is the default partition, i.e. the list [""]
+                    let default_partition = [String::new()];
+                    let writer_partition: &[String] =
+                        if discovered_writer_data.dds_publication_data.partition.name.is_empty() {
+                            &default_partition
+                        } else {
+                            &discovered_writer_data.dds_publication_data.partition.name
+                        };
+                    let reader_partition: &[String] = if subscriber_qos.partition.name.is_empty() {
+                        &default_partition
+                    } else {
+                        &subscriber_qos.partition.name
+                    };
+                    let is_any_name_matched =
+                        writer_partition.iter().any(|n| reader_partition.contains(n));
 
-                    let is_any_received_regex_matched_with_partition_qos = discovered_writer_data
-                        .dds_publication_data
-                        .partition
-                        .name
-                        .iter()
-                        .filter_map(|n| Regex::new(&fnmatch_to_regex(n)).ok())
-                        .any(|regex| {
-                            subscriber_qos
-                                .partition
-                                .name
-                                .iter()
-                                .any(|n| regex.is_match(n))
-                        });
-
-                    let is_any_local_regex_matched_with_received_partition_qos = subscriber_qos
-                        .partition
-                        .name
+                    let is_any_received_regex_matched_with_partition_qos = writer_partition
                         .iter()
                         .filter_map(|n| Regex::new(&fnmatch_to_regex(n)).ok())
-                        .any(|regex| {
-                            discovered_writer_data
-                                .dds_publication_data
-                                .partition
-                                .name
-                                .iter()
-                                .any(|n| regex.is_match(n))
-                        });
+                        .any(|regex| reader_partition.iter().any(|n| regex.is_match(n)));
 
-                    let is_partition_matched =
-                        discovered_writer_data.dds_publication_data.partition
-                            == subscriber_qos.partition
-                            || is_any_name_matched
-                            || is_any_received_regex_matched_with_partition_qos
-                            || is_any_local_regex_matched_with_received_partition_qos;
+                    let is_any_local_regex_matched_with_received_partition_qos = reader_partition
+                        .iter()
+                        .filter_map(|n| Regex::new(&fnmatch_to_regex(n)).ok())
+                        .any(|regex| writer_partition.iter().any(|n| regex.is_match(n)));
+
+                    let is_partition_matched = is_any_name_matched
+                        || is_any_received_regex_matched_with_partition_qos
+                        || is_any_local_regex_matched_with_received_partition_qos;
 
                     if is_partition_matched {
                         let reader_associated_topic = if let Some(matched_topic) = self
